@@ -51,6 +51,12 @@ def lattice(seed, quick):
                 if up:
                     cfg["user_pool"] = up
                 cfgs.append(cfg)
+    # a partial reparameterisation leaves two parameters of an asymmetric model to the fallback:
+    # the flow's column order must not depend on the interpreter's hash seed
+    for p in ({}, {"n_pool": 2}):
+        cfgs.append({"kind": "std", "model": "G3a", "seed": seed, "kwargs": {"nlive": 10, "poolsize": 10, "maximum_uninformed": 10, "reparameterisations": {"a": "rescaletobounds"}, **p}, "resume": "none"})
+    cfgs.append({"kind": "ins", "model": "G3a", "seed": seed, "kwargs": {"max_iteration": 2}, "resume": "none"})
+    cfgs.append({"kind": "ins", "model": "G3a", "seed": seed, "kwargs": {"max_iteration": 2, "n_pool": 2}, "resume": "none"})
     return cfgs
 
 
@@ -152,6 +158,10 @@ def run(ctx):
     if ctx.quick:
         # a second interpreter with a different hash seed for a slice of the lattice
         procs.append(spawn(cfgs[::5], 1))
+    # the configurations whose internal ordering could depend on string hashing: more hash seeds
+    hashy = [c for c in cfgs if c.get("model") == "G3a"]
+    for hs in (1, 2, 3):
+        procs.append(spawn(hashy, hs))
     digests = {}
     for p in procs:
         for d in collect(p):
@@ -163,7 +173,9 @@ def run(ctx):
     n_in_class = 0
     for cid, ds in digests.items():
         cfg = cfgs[cid]
-        key = (cfg["kind"], cfg["seed"])
+        # a class = everything but the parallelisation settings
+        other = {k: v for k, v in cfg["kwargs"].items() if k not in ("n_pool", "likelihood_chunksize", "parallelise_prior")}
+        key = (cfg["kind"], cfg["seed"], cfg.get("model", "G2"), json.dumps(other, sort_keys=True, default=str))
         for d in ds:
             if "error" in d:
                 ctx.violation(f"run-failed@{runs.cfg_key(cfg)}", f"{d['error']} (config {cfg}, PYTHONHASHSEED={d.get('hashseed')})", {"cfg": cfg})
